@@ -52,7 +52,7 @@ def r1(chk, ctx):
             chk.ob("C11.R1", "%s.%s in history and record come from the same local `%s`" % (ut, k, var), ok, "", key="%s | %s.%s differs between record and history" % (ee.qname, ut, k), where=ee.where(),
                    message="the last history event must agree with DescribeExecution")
     od = [norm(x.value) for x in name_defs(ee, "output_as_string") if isinstance(x, ast.Assign)]
-    chk.ob("C11.R1", "output text is json.dumps of the event data", od == ["json.dumps(data)"], str(od), key="%s | output_as_string" % ee.qname, where=ee.where(), message="")
+    chk.ob("C11.R1", "output text is json.dumps of the event data", bool(od) and set(od) == {"json.dumps(data)"}, str(od), key="%s | output_as_string" % ee.qname, where=ee.where(), message="")
     ed = [norm(x.value) for x in name_defs(ee, "error") if isinstance(x, ast.Assign)] + [norm(x.value) for x in name_defs(ee, "cause") if isinstance(x, ast.Assign)]
     chk.ob("C11.R1", "error/cause read from the event data", ed == ["data.get('Error')", "data.get('Cause')"], str(ed), key="%s | error/cause source" % ee.qname, where=ee.where(), message="")
     # start_execution
